@@ -78,6 +78,41 @@ CHECKS.update({
         note='Line-level, not bytecode-level preemption. Trusted: ' + TB + '; sys.settrace.'),
 })
 
+CHECKS.update({
+    'C03': dict(level='model_checking', design='5/C03',
+        technique='design spec AdbReader (need-driven read loop, command/checksum validation) explored by TLC for every fragmentation incl. empty reads; transition tours imposed on the in-memory transport with every bulk_read request compared; paired fragmented/unfragmented sessions, corruption and unknown-command sweeps validated against TraceReader',
+        text='NoOverRead/ExactReassembly/CorruptNeverDelivered/RightError on the design for good, corrupt and unknown-command packets; every edge of the read graphs of a connect+shell exchange replayed on sync+async; every read of random sessions judged against the frame boundary; all single-bit/byte corruptions of a 64-byte payload; unknown command words incl. all single-bit neighbours of the known ones.',
+        note='Scaled tour (model header byte = 8 real bytes). Trusted: ' + TB),
+    'C11': dict(level='model_checking', design='5/C11',
+        technique='design spec AdbTimed (deadline checks, timeout normalisation) explored by TLC against the most general stalling adversary, tight constant computed (K=3 holds, K=2 fails); every operation x await point x stall kind x timeout grid run under a virtual clock and validated against TraceTimed',
+        text='Bounded/Ordered/RightError on the design; on the code every packet an operation awaits is withheld in turn under five stall kinds and a grid including None, 0 and negatives; elapsed virtual time, error class, fabricated results and the timeout of every transport call are judged. F6 (pull+callback ignoring its timeouts) was found by this check and fixed.',
+        note='Virtual clock (every transport call costs 10 ms); K=6/12 on the code vs K=3 in the model. Trusted: ' + TB),
+    'C12': dict(level='fault_enumeration', design='5/C12',
+        technique='design spec AdbRecover (with-block lock discipline, clearing on connect/close, session epochs) explored by TLC with two sanity mutations; exhaustive injection of every fault kind at every transport-call index of a scenario covering all operations, then close/reconnect/replay, validated against TraceRecover',
+        text='Every index k of the ~115 transport calls x {timeout, reset, end-of-stream} x {sync, async} (thorough: random pairs, faults during recovery): the faulted operation raises or returns the right value, no lock stays held (detector locks), close completes, reconnect succeeds, the replayed scenario gives the fault-free results.',
+        note='One scenario shape; the session is closed after the faulted operation. Trusted: ' + TB),
+    'C15': dict(level='model_checking', design='5/C15',
+        technique='design spec AdbWriter (resubmit the remainder vs. deviation IgnoreShortWrite) explored by TLC; every capacity sequence over {1,2,half,len-1,len} up to 4 calls and random capacities on the in-memory transport, plus real loopback TCP with 4 KiB buffers and a slow reader, the peer-side byte stream judged by the frame clauses of TraceEnv',
+        text='PeerGetsAll/InOrderNoGap on the design; on the code a gap or truncation is recognised on the peer side by an independent frame parser; large pushes over a real non-blocking socket must arrive intact. F1 was found by this check and fixed.',
+        note='Loopback runs use real time but judge only byte-stream integrity. Trusted: ' + TB + '; the kernel TCP stack.'),
+    'C16': dict(level='translation_validation', design='5/C16',
+        technique='every scenario of the other checks (random/adversarial sessions, rejected transfers, handshake scripts, stalls, faults, short writes) run through AdbDevice and AdbDeviceAsync against identical simulators; paired Layer-A observables compared by TLC (TraceTwin), each run also accepted by TraceEnv; TCP transports paired on the C18 driver scripts',
+        text='programs = paired scenarios; disagreements_checked = paired observables (host packets byte for byte, results, exception classes, .available).',
+        note='Sequential scenarios only here; concurrent pairing through the tours of C06 (one model, two implementations). Trusted: ' + TB),
+    'C17': dict(level='other', design='5/C17',
+        technique='handshakes with the three real signer classes and keygen-written key files against a simulated adbd that verifies by pure-integer RSA and authorises exactly the key decoded from the offered blob; validated by TLC against TraceAuth; numeric content decided by harness/rsaproj.py',
+        text='TLA+ contributes the protocol context (which token, which key, when the public key may be offered, persistence of the authorised key across sessions); EMSA-PKCS1-v1_5 over the token as a SHA-1 digest and the 524-byte Android RSAPublicKey layout are checked by independent arithmetic. F3 was found by this check and fixed.',
+        note='2048-bit arithmetic is outside what TLC explores; cryptography is trusted to read the PEM public numbers.'),
+    'C18': dict(level='model_checking', design='5/C18',
+        technique='contract spec AdbTransport explored by TLC; a transition tour of its graph executed by a sequential driver owning both socket ends against TcpTransport and TcpTransportAsync on loopback, every step validated against TraceTransport; whole sessions over a socket server running the simulator compared with the in-memory transport',
+        text='ReadAtMost, InOrderNoLossNoDup, TimeoutOnlyWhenEmpty, TimeoutError class, TimeoutNotEarly (20 % slack, lower bound only), CloseIdempotent, Reconnectable, SessionSame.',
+        note='Real sockets and real time; no upper time bounds. Trusted: ' + TB + '; the kernel TCP stack.'),
+    'C20': dict(level='model_checking', design='5/C20',
+        technique='contract spec AdbTransport (scripts) + TraceUsb monitor; UsbTransport driven over a fake usb1 module (installed before import) with short transfers, backend errors at every call index, timeouts None/0/fractional, use after close; whole sessions wired to the simulator',
+        text='ClaimsOnConnect, WritesToOut, ReadsFromIn, ReadAtMost, InOrder, TimeoutMs, ErrorsMapped, UseAfterClose, CloseIdempotent, Reconnectable, SessionSame.',
+        note='The backend is a model of libusb1 as documented; no hardware.'),
+})
+
 NOT_YET = {}
 
 
